@@ -116,7 +116,8 @@ def _char_lit(cp):
 
 
 class Member:
-    def __init__(self, name, type, optional=False, default=None, has_default=False, ext=False):
+    def __init__(self, name, type, optional=False, default=None, has_default=False, ext=False, default_text=None):
+        self.default_text = default_text   # value notation fixed at generation time (needed through references)
         self.name = name
         self.type = type
         self.optional = optional
@@ -126,12 +127,13 @@ class Member:
 
     def to_json(self):
         return {"name": self.name, "type": self.type.to_json(), "optional": self.optional,
-                "default": val_to_json(self.default), "has_default": self.has_default, "ext": self.ext}
+                "default": val_to_json(self.default), "has_default": self.has_default, "ext": self.ext,
+                "default_text": self.default_text}
 
     @staticmethod
     def from_json(j):
         return Member(j["name"], T.from_json(j["type"]), j["optional"], val_from_json(j["default"]),
-                      j["has_default"], j["ext"])
+                      j["has_default"], j["ext"], j.get("default_text"))
 
 
 class T:
@@ -193,7 +195,7 @@ class T:
                 if m.optional:
                     ms += " OPTIONAL"
                 elif m.has_default:
-                    ms += " DEFAULT " + render_value(m.type, m.default)
+                    ms += " DEFAULT " + (m.default_text or render_value(m.type, m.default))
                 parts.append(ms)
             if self.ext and not ext_done:
                 parts.append("...")
